@@ -168,6 +168,31 @@ func init() {
 			return "u"
 		}
 
+		if replay == "cumulative" {
+			// Observation (not part of the default run): two delegations to one validator in ONE transaction,
+			// each below the cap against the state the transaction starts from, together above it.
+			c.begin()
+			ctx := c.dctx()
+			tv, _ := c.app.StakingKeeper.GetValidator(ctx, valOf(3))
+			total := c.stakeTotal(ctx)
+			num := new(big.Int).Mul(big.NewInt(66), total)
+			num.Sub(num, new(big.Int).Mul(big.NewInt(1000), tv.Tokens.BigInt()))
+			a := new(big.Int).Quo(num, big.NewInt(934))
+			a.Mul(a, big.NewInt(9)).Quo(a, big.NewInt(10))
+			m1 := stakingtypes.NewMsgDelegate(c.addrs[5], valOf(3), sdk.NewCoin("rowan", sdk.NewIntFromBigInt(a)))
+			m2 := stakingtypes.NewMsgDelegate(c.addrs[5], valOf(3), sdk.NewCoin("rowan", sdk.NewIntFromBigInt(a)))
+			ns := []*node{leaf(m1, bodyOfStaking(m1, valID)), leaf(m2, bodyOfStaking(m2, valID))}
+			res := c.deliver(5, msgsOf(ns), sdk.Coins{})
+			if res.Code == 0 {
+				ctx2 := c.dctx()
+				tv2, _ := c.app.StakingKeeper.GetValidator(ctx2, valOf(3))
+				out.Emit(fmt.Sprintf("chk c19.effpow.cumulative tag=ante.deliver.power.cumulative %s %s", tv2.Tokens.BigInt(), c.stakeTotal(ctx2)), "true", "tx.pow.cumulative", true)
+			} else {
+				out.Hist["tx.pow.cumulative.refused"]++
+				out.Extra["cumulative_log"] = res.Log
+			}
+			c.end()
+		}
 		for k := 0; out.N < n; k++ {
 			c.begin()
 			signer := rng.Intn(NV)
